@@ -13,7 +13,10 @@ Z2 == {[init |-> a, trans |-> <<[at |-> 0, off |-> b], [at |-> 2 * 86400, off |-
 \* a repeated interval of 12 s whose two offsets print as the same minute (+01:00:12 -> +01:00, as Africa/Ndjamena in 1911): an explicit
 \* +01:00 matches the EARLIER instant (after rounding) before the later one (exactly) - candidates are tried in order
 ZSameMinute == {[init |-> H + 12, trans |-> <<[at |-> 7200, off |-> H]>>], [init |-> -(H + 12), trans |-> <<[at |-> 7200, off |-> -(H + 20)]>>]}
-QZones == ZSameMinute \cup Z0 \cup {z \in Z1 : z.init # z.trans[1].off} \cup {z \in Z2 : z.init # z.trans[1].off /\ z.trans[1].off # z.trans[2].off}
+\* gaps that swallow midnight and begin before it (23:30 -> 00:30, 23:00 -> 01:00), and a repeated midnight
+ZMidnight == {[init |-> -5 * H, trans |-> <<[at |-> 4 * H + 1800, off |-> -4 * H]>>], [init |-> -5 * H, trans |-> <<[at |-> 4 * H, off |-> -3 * H]>>],
+              [init |-> -4 * H, trans |-> <<[at |-> 4 * H + 1800, off |-> -5 * H]>>]}
+QZones == ZMidnight \cup ZSameMinute \cup Z0 \cup {z \in Z1 : z.init # z.trans[1].off} \cup {z \in Z2 : z.init # z.trans[1].off /\ z.trans[1].off # z.trans[2].off}
 Grid(lo, hi, step) == {lo + k * step : k \in 0..((hi - lo) \div step)}
 QWalls == Grid(-2 * 86400, 4 * 86400, 1800) \cup {-17762, 7199, 7200, 7201}
 QIWalls == {7200 + H + 5, 7200 - H - 15} \cup Grid(-20 * H, 20 * H, 3 * H) \cup Grid(2 * 86400 - 16 * H, 2 * 86400 + 16 * H, 4 * H) \cup {7199, 7200, -17762}
@@ -24,6 +27,7 @@ Cls == CASE last.op = "fromLocal" -> Classify(last.z, last.w) \o "/" \o last.dis
          [] last.op = "wall" -> IF \E i \in 1..NT(last.z) : last.z.trans[i].at = last.t THEN "at-transition" ELSE "between"
          [] last.op = "views" -> "views/" \o last.via \o "/" \o (IF \E i \in 1..NT(last.z) : last.z.trans[i].at = last.t THEN "at-transition" ELSE "between")
          [] last.op = "bag" -> "bag/" \o last.oc.k \o "/" \o last.oo \o "/" \o Classify(last.z, last.w) \o CloseTag
+         [] last.op = "fromDate" -> "fromDate/" \o last.tt \o "/" \o Classify(last.z, last.day * 86400) \o (IF CloseTransitions(last.z) THEN "/close-transitions" ELSE "")
          [] last.op = "relto" -> "relativeTo/" \o last.oc.k \o "/" \o Classify(last.z, last.w) \o CloseTag
          [] last.op = "interpret" -> last.oc.k \o "/" \o last.oo \o "/" \o Classify(last.z, last.w) \o CloseTag
 CaseOf ==
@@ -31,6 +35,7 @@ CaseOf ==
     [] last.op = "wall" -> [op |-> "Zoned.wall", cls |-> Cls, args |-> [zone |-> last.z, t |-> last.t], out |-> last.out]
     [] last.op = "views" -> [op |-> "Zoned.views", cls |-> Cls, args |-> [zone |-> last.z, t |-> last.t, via |-> last.via], out |-> last.out]
     [] last.op = "bag" -> [op |-> "Zoned.fromPartial", cls |-> Cls, args |-> [zone |-> last.z, w |-> last.w, offk |-> last.oc.k, offmin |-> last.oc.o \div 60, dis |-> last.dis, offopt |-> last.oo], out |-> last.out]
+    [] last.op = "fromDate" -> [op |-> "Zoned.fromDate", cls |-> Cls, args |-> [zone |-> last.z, day |-> last.day, tt |-> last.tt], out |-> last.out]
     [] last.op = "relto" -> [op |-> "Zoned.relTo", cls |-> Cls, args |-> [zone |-> last.z, w |-> last.w, offk |-> last.oc.k, off |-> last.oc.o], out |-> last.out]
     [] last.op = "interpret" -> [op |-> "Zoned.fromStr", cls |-> Cls, args |-> [zone |-> last.z, w |-> last.w, offk |-> last.oc.k, off |-> last.oc.o, dis |-> last.dis, offopt |-> last.oo], out |-> last.out]
 Emit == last.op = "none" \/ PrintT("CASE " \o ToJson(CaseOf))
